@@ -7,23 +7,24 @@ import (
 )
 
 var commands = map[string]func([]string){
-	"scan":      cmdScan,
-	"gen":       cmdGen,
-	"infos":     cmdInfos,
-	"c02":       cmdC02,
-	"c03":       cmdC03,
-	"c05":       cmdC05,
-	"c20":       cmdC20,
-	"asteq":     cmdAsteq,
-	"vrace":     cmdVrace,
-	"isgen":     cmdIsgen,
-	"c18":       cmdC18,
-	"c13":       cmdC13,
-	"c11":       cmdC11,
-	"c09":       cmdC09,
-	"loadcheck": cmdLoadcheck,
-	"s10":       cmdS10,
-	"s12":       cmdS12,
+	"scan":       cmdScan,
+	"gen":        cmdGen,
+	"transplant": cmdTransplant,
+	"infos":      cmdInfos,
+	"c02":        cmdC02,
+	"c03":        cmdC03,
+	"c05":        cmdC05,
+	"c20":        cmdC20,
+	"asteq":      cmdAsteq,
+	"vrace":      cmdVrace,
+	"isgen":      cmdIsgen,
+	"c18":        cmdC18,
+	"c13":        cmdC13,
+	"c11":        cmdC11,
+	"c09":        cmdC09,
+	"loadcheck":  cmdLoadcheck,
+	"s10":        cmdS10,
+	"s12":        cmdS12,
 }
 
 func main() {
